@@ -138,6 +138,28 @@ func genC01(r *kit.RNG) *C01Scenario {
 				t.Step = "answer"
 			case "nodata-for-existing", "flip-rdata", "forge-resign", "inject-answer", "drop-some-sigs":
 				t.Step = kit.Pick(r, []string{"answer", "dnskey", "ds"})
+			case "dname-cname-prefix":
+				// applies to DNAME answers only: aim at a zone that has one and ask below it
+				t.Step = "answer"
+				var cands []string
+				for _, z := range sc.World.Zones {
+					if !z.Signed {
+						continue
+					}
+					for _, rec := range z.Records {
+						if strings.Contains(rec, " IN DNAME ") {
+							cands = append(cands, dns.CanonicalName(z.Name)+"|"+strings.Fields(rec)[0])
+						}
+					}
+				}
+				if len(cands) > 0 {
+					c := strings.SplitN(kit.Pick(r, cands), "|", 2)
+					t.Zone, t.FromOp, t.ToOp = c[0], 0, 1<<20
+					for k := 0; k < 3; k++ {
+						sc.Ops = append(sc.Ops, C01Op{Name: kit.Pick(r, []string{"mail.", "a.b.", "x."}) + c[1], Qtype: kit.Pick(r, []uint16{dns.TypeA, dns.TypeA, dns.TypeTXT}),
+							DO: r.Chance(0.6), AD: r.Chance(0.5), GapMs: kit.Pick(r, []int{10, 1000, 6000})})
+					}
+				}
 			}
 			sc.Tampers = append(sc.Tampers, t)
 		}
